@@ -286,3 +286,18 @@ Proof.
 Qed.
 
 End Codec.
+
+(* ------------------------------------------------------------------ the format follows the Produce version *)
+Lemma format_of_version : forall v,
+  (format_of_produce_version v = 2 <-> 3 <= v) /\ (format_of_produce_version v = 1 <-> v < 3).
+Proof.
+  intros v. unfold format_of_produce_version. destruct (Z.ltb_spec v 3); split; split; intros; try lia; discriminate.
+Qed.
+
+Lemma proto_produce_format : forall (comp : N -> list N -> list N) v attrs now rs,
+  (3 <= v -> proto_produce comp v attrs now rs = proto_v2 comp attrs now rs) /\
+  (v < 3 -> proto_produce comp v attrs now rs = Some (proto_v1 comp attrs now rs)).
+Proof.
+  intros comp v attrs now rs. unfold proto_produce, format_of_produce_version.
+  destruct (Z.ltb_spec v 3); split; intros; try lia; reflexivity.
+Qed.
